@@ -225,8 +225,10 @@ def check(ctx):
     sloops = [n for n in ast.walk(srt.node) if isinstance(n, ast.For) and isinstance(n.target, ast.Tuple) and len(n.target.elts) == 2]
     KEYV, DIRV = (norm(e) for e in sloops[0].target.elts) if sloops else ("key", "dir")
     for c in calls:
+        from ..forms import resolved_text
         rv = kw(c, "reverse")
-        ok = rv is not None and norm(rv) in (f"{DIRV} < 0", f"{DIRV} == -1", f"0 > {DIRV}")
+        rvt = resolved_text(srt, rv, c) if rv is not None else None
+        ok = rv is not None and rvt in (f"{DIRV} < 0", f"{DIRV} == -1", f"0 > {DIRV}")
         ctx.ob("ORD-sort", srt, norm(c), c, ok, "descending keys are sorted with reverse=True" if ok else
                f"reverse={norm(rv) if rv is not None else None}: the direction is not (correctly) honoured",
                clause="stable ordering by the given keys and directions")
@@ -239,20 +241,19 @@ def check(ctx):
     sk = srt.nested.get("sort_key")
     if sk is None:
         raise AnalysisError("anchor vanished: ListOfDicts.sort.sort_key")
+    from ..forms import value_cases
+    cases = value_cases(sk, "return")
     rets = [n for n in body_nodes(sk.node) if isinstance(n, ast.Return)]
+    asc = [leaf for _, leaf, f in cases if ("T", f"{DIRV} > 0") in f or ("T", f"{DIRV} == 1") in f or ("F", f"{DIRV} < 0") in f]
+    desc = [leaf for _, leaf, f in cases if ("F", f"{DIRV} > 0") in f or ("T", f"{DIRV} < 0") in f or ("T", f"{DIRV} == -1") in f]
     ok = False
-    why = "cannot recognise the (None-flag, value) key"
-    for r in rets:
-        v = r.value
-        if isinstance(v, ast.IfExp) and isinstance(v.body, ast.Tuple) and isinstance(v.orelse, ast.Tuple):
-            asc, desc = (v.body, v.orelse) if norm(v.test) in (f"{DIRV} > 0", f"{DIRV} == 1") else (v.orelse, v.body)
-            if norm(v.test) not in (f"{DIRV} > 0", f"{DIRV} == 1", f"{DIRV} < 0", f"{DIRV} == -1"):
-                continue
-            a0, d0 = norm(asc.elts[0]), norm(desc.elts[0])
-            ok = a0.endswith("is None") and d0.endswith("is not None")
-            why = ("ascending: None flag True sorts last; descending (reverse=True): 'is not None' flag keeps None last" if ok else
-                   f"flags {a0!r}/{d0!r}: None is not placed last in both directions")
-    ctx.ob("ORD-sort", sk, norm(rets[0].value) if rets else "sort_key", rets[0] if rets else sk.node, ok, why, clause="with None last")
+    why = "cannot recognise the (None-flag, value) key for the two directions"
+    if len(asc) == 1 and len(desc) == 1 and isinstance(asc[0], ast.Tuple) and isinstance(desc[0], ast.Tuple) and asc[0].elts and desc[0].elts:
+        a0, d0 = norm(asc[0].elts[0]), norm(desc[0].elts[0])
+        ok = a0.endswith("is None") and d0.endswith("is not None")
+        why = ("ascending: None flag True sorts last; descending (reverse=True): 'is not None' flag keeps None last" if ok else
+               f"flags {a0!r}/{d0!r}: None is not placed last in both directions")
+    ctx.ob("ORD-sort", sk, "; ".join(norm(leaf) for _, leaf, _ in cases)[:150] or "sort_key", rets[0] if rets else sk.node, ok, why, clause="with None last")
     raises = [n for n in body_nodes(srt.node) if isinstance(n, ast.Raise)]
     ok = any(any(("in" in t.split()) and DIRV in t and "1" in t for k, t in facts_at(srt, r)) for r in raises)
     ctx.ob("ORD-sort", srt, "dir validated", raises[0] if raises else srt.node, ok, "directions other than 1/-1 are rejected" if ok else
